@@ -1018,7 +1018,7 @@ class C16(E2EProp):
     id = "C16"
     cone = ["Properties/C16.vo"]
     prop_file = "Properties/C16.v"
-    theorems = ["C16_nesting_bounded", "C16_fuel_never_decides", "C16_expansions_within_budget", "C16_call_beyond_budget_is_refused", "C16_examples"]
+    theorems = ["C16_nesting_bounded", "C16_fuel_never_decides", "C16_expansions_within_budget", "C16_call_beyond_budget_is_refused", "C16_include_cycle_is_refused", "C16_examples"]
     partial = ["C16_bounded as a step-count bound (cost <= K * size): not proved; proved instead: nesting of re-entrant calls is bounded by 43 + number of files for every document, so the recursion is always cut by the code's own limits, and the expansions counted for one top-level line never exceed the budget of 10000, a call beyond it not running the body (C16_expansions_within_budget, C16_call_beyond_budget_is_refused); the work of one expansion (argument size <= 10000, body size) is not turned into a step count; S-e2e-recursion exercises the whole under a watchdog",
                "wall-clock time, memory and the Go stack limit are represented only as step count and nesting depth"]
     oracle = staticmethod(oracles.c16_oracle)
